@@ -293,7 +293,7 @@ def run(ctx):
     ctx.proof_phase(MODULE, THEOREMS, refutations=REFUTATIONS)
     drv = ctx.driver("Drivers.C20")
     rng = ctx.sub_rng("programs")
-    nprog = ctx.budget(220, 4000)
+    nprog = ctx.budget(150, 4000)
     if ctx.replay_in:
         import json
         rp = json.load(open(ctx.replay_in))["replay"]
